@@ -23,9 +23,9 @@ Section WF.
 
   Notation set_value := (set_value F lvalidate lto_python ldefault lcallable lflag vrun).
   Notation load_keys := (load_keys F lvalidate lto_python ldefault lcallable lflag vrun).
-  Notation build_cfg := (build_cfg F ldefault lcallable).
-  Notation build_val := (build_val F ldefault lcallable).
-  Notation build_fields := (build_fields F ldefault lcallable).
+  Notation build_cfg := (build_cfg F lvalidate lto_python ldefault lcallable lflag vrun).
+  Notation build_val := (build_val F lvalidate lto_python ldefault lcallable lflag vrun).
+  Notation build_fields := (build_fields F lvalidate lto_python ldefault lcallable lflag vrun).
   Notation validate_raise := (validate_raise F lvalidate lflag vrun).
   Notation set_leaf := (set_leaf F lvalidate).
   Notation cfg_items := (cfg_items F lvalidate lto_python ldefault lcallable lflag vrun).
@@ -39,8 +39,8 @@ Section WF.
     match nd, v with
     | NLeaf f, VLeaf x => lmeets f x
     | NSub _ _ fs, VCfg c => wf_cfg fs c
-    | NCfgList _ _ _, VLeaf PNone => True
-    | NCfgList _ _ fs, VList l => (fix go (l : list cfg) : Prop := match l with [] => True | it :: r => wf_cfg fs it /\ go r end) l
+    | NCfgList _ _ _ _, VLeaf PNone => True
+    | NCfgList _ _ fs _, VList l => (fix go (l : list cfg) : Prop := match l with [] => True | it :: r => wf_cfg fs it /\ go r end) l
     | _, _ => False
     end
   with wf_cfg (fs : list (str * node F)) (c : cfg) {struct c} : Prop :=
@@ -66,9 +66,9 @@ Section WF.
       + intros [H1 H2]. constructor; [exact H1 | apply IH; exact H2].
       + intro H. inversion H; subst. split; [exact H2 | apply IH; exact H3].
   Qed.
-  Lemma wf_val_list : forall r vs fs l, wf_val (NCfgList r vs fs) (VList l) <-> wf_items fs l.
+  Lemma wf_val_list : forall r vs fs fsq l, wf_val (NCfgList r vs fs fsq) (VList l) <-> wf_items fs l.
   Proof.
-    intros r vs fs l. cbn [wf_val]. unfold wf_items. induction l as [|it l IH].
+    intros r vs fs fsq l. cbn [wf_val]. unfold wf_items. induction l as [|it l IH].
     - split; intro; [constructor | exact I].
     - split.
       + intros [H1 H2]. constructor; [exact H1 | apply IH; exact H2].
@@ -88,12 +88,16 @@ Section WF.
   Lemma wf_store_dyn : forall fs c k v, wf_cfg fs c -> wf_slot fs k v -> wf_cfg fs (store_dyn c k v).
   Proof. intros fs [i d df dy] k v H Hv. unfold store_dyn. apply wf_cfg_data. apply wf_cfg_data in H. apply wf_data_dset; assumption. Qed.
 
-  (* ---- schemas come from Python dicts: keys are distinct at every level ---- *)
+  (* ---- schemas come from Python dicts: keys are distinct at every level; and the premise of C01 for lists of
+     configurations with declared default items -- the default is itself valid: building it (every map loaded into a fresh
+     item and validated) never fails, in whatever world; the code would raise from the constructor otherwise ---- *)
   Fixpoint ok_node (nd : node F) : Prop :=
     match nd with
     | NLeaf _ => True
     | NSub _ _ fs => NoDup (map fst fs) /\ (fix go (fs : list (str * node F)) : Prop := match fs with [] => True | (k, n) :: r => ok_node n /\ go r end) fs
-    | NCfgList _ _ fs => NoDup (map fst fs) /\ (fix go (fs : list (str * node F)) : Prop := match fs with [] => True | (k, n) :: r => ok_node n /\ go r end) fs
+    | NCfgList r vs fs dfl =>
+        (NoDup (map fst fs) /\ (fix go (fs : list (str * node F)) : Prop := match fs with [] => True | (k, n) :: r => ok_node n /\ go r end) fs)
+        /\ (forall w, snd (build_val w (NCfgList r vs fs dfl)) <> VLeaf default_failed)
     end.
   Definition ok_fields (fs : list (str * node F)) : Prop := NoDup (map fst fs) /\ Forall (fun kn => ok_node (snd kn)) fs.
   Lemma ok_node_sub : forall d vs fs, ok_node (NSub d vs fs) <-> ok_fields fs.
@@ -102,12 +106,14 @@ Section WF.
     - induction fs as [|[k n] fs IH]; [constructor|]. destruct H2 as [H2 H3]. constructor; [exact H2 | apply IH; exact H3].
     - induction fs as [|[k n] fs IH]; [exact I|]. inversion H2; subst. split; [exact H1 | apply IH; exact H3].
   Qed.
-  Lemma ok_node_list : forall r vs fs, ok_node (NCfgList r vs fs) <-> ok_fields fs.
+  Lemma ok_node_list : forall r vs fs fsq, ok_node (NCfgList r vs fs fsq) -> ok_fields fs.
   Proof.
-    intros. cbn [ok_node]. unfold ok_fields. split; intros [H1 H2]; (split; [exact H1|]); clear H1.
-    - induction fs as [|[k n] fs IH]; [constructor|]. destruct H2 as [H2 H3]. constructor; [exact H2 | apply IH; exact H3].
-    - induction fs as [|[k n] fs IH]; [exact I|]. inversion H2; subst. split; [exact H1 | apply IH; exact H3].
+    intros r vs fs fsq. cbn [ok_node]. unfold ok_fields. intros [[H1 H2] _]. split; [exact H1|]. clear H1.
+    induction fs as [|[k n] fs IH]; [constructor|]. destruct H2 as [H2 H3]. constructor; [exact H2 | apply IH; exact H3].
   Qed.
+  Lemma ok_node_list_default : forall r vs fs fsq, ok_node (NCfgList r vs fs fsq) ->
+    forall w, snd (build_val w (NCfgList r vs fs fsq)) <> VLeaf default_failed.
+  Proof. intros r vs fs fsq. cbn [ok_node]. intros [_ H]. exact H. Qed.
   Lemma fget_in : forall k nd fs, fget F k fs = Some nd -> In (k, nd) fs.
   Proof.
     unfold fget. induction fs as [|[k' n'] fs IH]; cbn [assoc]; intro H; [discriminate|].
@@ -123,6 +129,18 @@ Section WF.
   Qed.
   Lemma ok_fields_in : forall fs k nd, ok_fields fs -> In (k, nd) fs -> ok_node nd.
   Proof. intros fs k nd [_ H] Hin. rewrite Forall_forall in H. apply (H (k, nd) Hin). Qed.
+
+  (* loading the map of a default item stores validated values only *)
+  Lemma flat_load_wf : forall fs d it it' o, wf_cfg fs it -> flat_load F lvalidate lto_python d it fs = (it', o) -> wf_cfg fs it'.
+  Proof.
+    intros fs. induction d as [|[kk xi] d IH]; intros it it' o Hw H; cbn [Config.flat_load] in H.
+    - inversion H; subst. exact Hw.
+    - destruct kk; try (inversion H; subst; exact Hw).
+      destruct (fget F s fs) as [[f|d1 v1 f1|r1 v1 f1 q1]|] eqn:Ef; try (inversion H; subst; exact Hw).
+      destruct (lto_python f xi); try (inversion H; subst; exact Hw).
+      unfold Config.set_leaf in H. destruct (lvalidate f a) eqn:Ev; try (inversion H; subst; exact Hw).
+      eapply IH; [|exact H]. apply wf_store; [exact Hw|]. unfold wf_slot. rewrite Ef. cbn [wf_val]. eapply validate_sound; eauto.
+  Qed.
 
   (* ---- a freshly built configuration is well-formed (induction on the size of the schema) ---- *)
   Lemma build_val_sub : forall w d vs fs,
@@ -148,7 +166,7 @@ Section WF.
   Proof.
     induction n as [|n IH]; intros nd Hn Hok w.
     - destruct nd; cbn [nsize] in Hn; lia.
-    - destruct nd as [f|dyn vs fs|req vs fs].
+    - destruct nd as [f|dyn vs fs|req vs fs fsq].
       + cbn [Config.build_val]. unfold eval_default. destruct (lcallable f); cbn [snd wf_val]; apply defaults_valid.
       + rewrite nsize_sub in Hn. rewrite build_val_sub. cbn zeta.
         destruct (build_fields {| w_next := w_next w + 1; w_calls := w_calls w |} fs) as [w' dd] eqn:Eb. cbn [snd wf_val].
@@ -157,7 +175,29 @@ Section WF.
         specialize (Hb (fun k nd Hin => conj (in_fget k nd fs (proj1 Hok) Hin) (ok_fields_in fs k nd Hok Hin))
                        {| w_next := w_next w + 1; w_calls := w_calls w |}).
         rewrite Eb in Hb. exact Hb.
-      + cbn [Config.build_val snd wf_val]. exact I.
+      + destruct fsq as [[callable maps]|]; [|cbn [Config.build_val snd wf_val]; exact I].
+        pose proof (ok_node_list_default _ _ _ _ Hok w) as Hnf. rewrite build_val_list in Hnf |- *.
+        change (nsize F (NCfgList req vs fs (Some (callable, maps)))) with (nsize F (NSub false vs fs)) in Hn. rewrite nsize_sub in Hn.
+        apply ok_node_list in Hok.
+        destruct (build_items F lvalidate lto_python ldefault lcallable lflag vrun vs fs maps (bump_calls callable w) []) as [w1 [l|]] eqn:Eb;
+          cbn [snd] in *; [|exfalso; apply Hnf; reflexivity].
+        apply wf_val_list. clear Hnf.
+        assert (Hgen : forall ts w0 acc w2 l2, wf_items fs acc ->
+                  build_items F lvalidate lto_python ldefault lcallable lflag vrun vs fs ts w0 acc = (w2, Some l2) -> wf_items fs l2).
+        { induction ts as [|a ts IHt]; intros w0 acc w2 l2 Hacc Hb; cbn [build_items] in Hb.
+          - inversion Hb; subst. unfold wf_items. apply Forall_rev. exact Hacc.
+          - destruct a; try discriminate.
+            destruct (build_fields {| w_next := w_next w0 + 1; w_calls := w_calls w0 |} fs) as [w3 dd] eqn:Ef.
+            destruct (flat_load F lvalidate lto_python d (Cfg (w_next w0) dd (map fst fs) []) fs) as [it1 o] eqn:El.
+            destruct o; try discriminate.
+            destruct (validate_raise (NSub false vs fs) [] (VCfg it1)); try discriminate.
+            eapply IHt; [|exact Hb]. constructor; [|exact Hacc].
+            eapply flat_load_wf; [|exact El]. apply wf_cfg_data.
+            pose proof (build_fields_wf n IH fs fs ltac:(lia)) as Hbf.
+            specialize (Hbf (fun k nd Hin => conj (in_fget k nd fs (proj1 Hok) Hin) (ok_fields_in fs k nd Hok Hin))
+                            {| w_next := w_next w0 + 1; w_calls := w_calls w0 |}).
+            rewrite Ef in Hbf. exact Hbf. }
+        eapply Hgen; [|exact Eb]. constructor.
   Qed.
 
   Theorem build_cfg_wf : forall fs w, ok_fields fs -> wf_cfg fs (snd (build_cfg w fs)).
@@ -206,7 +246,7 @@ Section WF.
       destruct kk; try (inversion H; subst; exact Hw).
       match type of H with (match ?t with _ => _ end) = _ => destruct t as [[w1 c1] o1] eqn:E end.
       assert (Hw1 : wf_cfg fs c1).
-      { destruct (fget F s fs) as [[f|d1 v1 f1|req v1 f1]|] eqn:Ef.
+      { destruct (fget F s fs) as [[f|d1 v1 f1|req v1 f1 f1q]|] eqn:Ef.
         - destruct (smem s (c_dyn c)); [inversion E; subst; exact Hw|].
           destruct (lto_python f xi); try (inversion E; subst; exact Hw).
           destruct (set_leaf pre c f s a) as [c2 o2] eqn:El. inversion E; subst. eapply set_leaf_wf; eauto.
@@ -234,12 +274,12 @@ Section WF.
       eapply IH; [lia | | exact H]. constructor; assumption.
   Qed.
 
-  Lemma list_finish_wf : forall fs c k p req r w' c' o vs fs',
-    fget F k fs = Some (NCfgList req vs fs') -> wf_cfg fs c ->
+  Lemma list_finish_wf : forall fs c k p req r w' c' o vs fs' fs'q,
+    fget F k fs = Some (NCfgList req vs fs' fs'q) -> wf_cfg fs c ->
     (forall w1 l1 o1, r = (w1, l1, o1) -> wf_items fs' l1) ->
     list_finish c k p req r = (w', c', o) -> wf_cfg fs c'.
   Proof.
-    unfold list_finish. intros fs c k p req [[w1 l] o1] w' c' o vs fs' Hf Hw Hr H.
+    unfold list_finish. intros fs c k p req [[w1 l] o1] w' c' o vs fs' fs'q Hf Hw Hr H.
     destruct o1; try (inversion H; subst; exact Hw).
     destruct (req && is_nil l); inversion H; subst; [exact Hw|].
     apply wf_store; [exact Hw|]. unfold wf_slot. rewrite Hf. apply wf_val_list. eapply Hr; reflexivity.
@@ -248,7 +288,7 @@ Section WF.
   Lemma WSV_step : forall n, WLK n -> WSV (S n).
   Proof.
     intros n HLK x Hx w pre c fs dyn k rl w' c' o Hok Hw H. rewrite set_value_unfold in H. unfold set_value_body in H.
-    destruct (fget F k fs) as [[f|dyn' vs fs'|req vs fs']|] eqn:Ef.
+    destruct (fget F k fs) as [[f|dyn' vs fs'|req vs fs' fs'q]|] eqn:Ef.
     - destruct (set_leaf pre c f k x) as [c1 o1] eqn:E. inversion H; subst. eapply set_leaf_wf; eauto.
     - assert (Hok' : ok_fields fs') by (apply (ok_node_sub dyn' vs); eapply ok_fields_get; eauto).
       destruct x; try (inversion H; subst; exact Hw).
@@ -260,7 +300,7 @@ Section WF.
       destruct o1; try (inversion H; subst; exact Hw).
       destruct (validate_raise (NSub dyn' vs fs') (path_join pre k) (VCfg sub1)); inversion H; subst; try exact Hw.
       apply wf_store; [exact Hw|]. unfold wf_slot. rewrite Ef. cbn [wf_val]. exact Hs.
-    - assert (Hok' : ok_fields fs') by (apply (ok_node_list req vs); eapply ok_fields_get; eauto).
+    - assert (Hok' : ok_fields fs') by (eapply (ok_node_list req vs); eapply ok_fields_get; eauto).
       assert (Hitems : forall l, (lsize l <= n)%nat -> forall w1 l1 o1, cfg_items (path_join pre k) vs fs' l 0 w [] = (w1, l1, o1) -> wf_items fs' l1).
       { intros l Hl w1 l1 o1 Hc. eapply cfg_items_wf; [exact HLK | exact Hok' | exact Hl | constructor | exact Hc]. }
       assert (Hnil : forall (w0 w1 : world) l1 (o1 : oc), (w0, @nil cfg, OOk) = (w1, l1, o1) -> wf_items fs' l1) by (intros w0 w1 l1 o1 Hq; inversion Hq; subst; apply Forall_nil).
@@ -329,10 +369,36 @@ Section WF.
     destruct (validate_raise (NSub false vs fs') (path_index p pos) (VCfg it1)); inversion H; subst. exact Hit.
   Qed.
 
+  (* ---- configuration objects handed over as they are (CSetObj / CAppendObj / CSetIdxObj / CInsertObj): the code stores
+     them without looking at the schema they were built from, so well-formedness of the receiving configuration can
+     only be kept if the object is itself well-formed for the fields of the slot it goes to.  `obj_ok` states exactly
+     that, statically, from the schema, the path and the operation (every other operation: no condition).
+     `resolve_obj_ok` below shows the condition is met by every object this model builds from the slot's own schema. *)
+  Definition obj_ok_at (fs : list (str * node F)) (o : cop) : Prop :=
+    match o with
+    | CSetObj k src => match fget F k fs with Some (NSub _ _ fs') => wf_cfg fs' src | _ => True end
+    | CAppendObj k src | CSetIdxObj k _ src | CInsertObj k _ src =>
+        match fget F k fs with Some (NCfgList _ _ fs' _) => wf_cfg fs' src | _ => True end
+    | _ => True
+    end.
+  (* the fields of the configuration a path addresses, read off the schema *)
+  Fixpoint fields_at (ps : list pstep) (fs : list (str * node F)) : option (list (str * node F)) :=
+    match ps with
+    | [] => Some fs
+    | PKey k :: r => match fget F k fs with Some (NSub _ _ fs') => fields_at r fs' | _ => None end
+    | PItem k _ :: r => match fget F k fs with Some (NCfgList _ _ fs' _) => fields_at r fs' | _ => None end
+    end.
+  Definition obj_ok (fs : list (str * node F)) (ps : list pstep) (o : cop) : Prop :=
+    match fields_at ps fs with Some fs1 => obj_ok_at fs1 o | None => True end.
+  Definition plain_op (o : cop) : bool :=
+    match o with CSetObj _ _ | CAppendObj _ _ | CSetIdxObj _ _ _ | CInsertObj _ _ _ => false | _ => true end.
+  Lemma plain_obj_ok : forall fs ps o, plain_op o = true -> obj_ok fs ps o.
+  Proof. intros fs ps o H. unfold obj_ok. destruct (fields_at ps fs); [|exact I]. destruct o; try discriminate; exact I. Qed.
+
   Lemma apply_cop_wf : forall o w pre c dyn vs fs w' c' oc1,
-    ok_fields fs -> wf_cfg fs c -> apply_cop w pre c dyn vs fs o = (w', c', oc1) -> wf_cfg fs c'.
+    ok_fields fs -> wf_cfg fs c -> obj_ok_at fs o -> apply_cop w pre c dyn vs fs o = (w', c', oc1) -> wf_cfg fs c'.
   Proof.
-    intros o w pre c dyn vs fs w' c' oc1 Hok Hw H. destruct o; cbn [Config.apply_cop] in H.
+    intros o w pre c dyn vs fs w' c' oc1 Hok Hw Hobj H. destruct o; cbn [Config.apply_cop] in H; cbn [obj_ok_at] in Hobj.
     - eapply set_value_wf; eauto.
     - unfold Config.load_tree in H. destruct t; try (inversion H; subst; exact Hw).
       destruct (load_keys d w pre c fs dyn) as [[w1 c1] o1] eqn:E.
@@ -344,9 +410,9 @@ Section WF.
         pose proof (build_val_wf (nsize F nd) nd (le_n _) (ok_fields_get fs k nd Hok Ef) w) as Hv. rewrite Ev in Hv. exact Hv.
       + destruct (smem k (c_dyn c)); [|inversion H; subst; exact Hw]. destruct c as [i d df dy]. inversion H; subst.
         apply wf_cfg_data. apply wf_cfg_data in Hw. apply wf_data_dset; [exact Hw|]. unfold wf_slot. rewrite Ef. exact I.
-    - destruct (fget F k fs) as [[f|d1 v1 f1|req vs' fs']|] eqn:Ef; try (inversion H; subst; exact Hw).
+    - destruct (fget F k fs) as [[f|d1 v1 f1|req vs' fs' fs'q]|] eqn:Ef; try (inversion H; subst; exact Hw).
       destruct (dget k (c_data c)) as [[v|c0|l]|] eqn:Eg; try (inversion H; subst; exact Hw).
-      assert (Hok' : ok_fields fs') by (apply (ok_node_list req vs'); eapply ok_fields_get; eauto).
+      assert (Hok' : ok_fields fs') by (eapply (ok_node_list req vs'); eapply ok_fields_get; eauto).
       destruct (make_item w (path_join pre k) (N.of_nat (length l)) vs' fs' x) as [[w1 it] o1] eqn:E.
       destruct it as [it|]; [|inversion H; subst; exact Hw].
       destruct o1; try (inversion H; subst; exact Hw). destruct c as [i d df dy]. inversion H; subst.
@@ -354,9 +420,9 @@ Section WF.
       apply wf_val_list. apply Forall_app. split.
       * pose proof (wf_cfg_get _ _ _ _ Hw0 Eg) as Hl. unfold wf_slot in Hl. rewrite Ef in Hl. apply wf_val_list in Hl. exact Hl.
       * constructor; [eapply make_item_wf; eauto | constructor].
-    - destruct (fget F k fs) as [[f|d1 v1 f1|req vs' fs']|] eqn:Ef; try (inversion H; subst; exact Hw).
+    - destruct (fget F k fs) as [[f|d1 v1 f1|req vs' fs' fs'q]|] eqn:Ef; try (inversion H; subst; exact Hw).
       destruct (dget k (c_data c)) as [[v|c0|l]|] eqn:Eg; try (inversion H; subst; exact Hw).
-      assert (Hok' : ok_fields fs') by (apply (ok_node_list req vs'); eapply ok_fields_get; eauto).
+      assert (Hok' : ok_fields fs') by (eapply (ok_node_list req vs'); eapply ok_fields_get; eauto).
       destruct (make_item w (path_join pre k) (N.of_nat (length l)) vs' fs' x) as [[w1 it] o1] eqn:E.
       destruct it as [it|]; [|inversion H; subst; exact Hw].
       destruct o1; try (inversion H; subst; exact Hw).
@@ -371,9 +437,9 @@ Section WF.
       destruct (load_keys d w pre c fs dyn) as [[w1 c1] o1] eqn:E.
       assert (Hc1 : wf_cfg fs c1) by (eapply load_keys_wf; eauto).
       destruct o1; inversion H; subst; exact Hc1.
-    - destruct (fget F k fs) as [[f|d1 v1 f1|req vs' fs']|] eqn:Ef; try (inversion H; subst; exact Hw).
+    - destruct (fget F k fs) as [[f|d1 v1 f1|req vs' fs' fs'q]|] eqn:Ef; try (inversion H; subst; exact Hw).
       destruct (dget k (c_data c)) as [[v|c0|l]|] eqn:Eg; try (inversion H; subst; exact Hw).
-      assert (Hok' : ok_fields fs') by (apply (ok_node_list req vs'); eapply ok_fields_get; eauto).
+      assert (Hok' : ok_fields fs') by (eapply (ok_node_list req vs'); eapply ok_fields_get; eauto).
       destruct (make_item w (path_join pre k) (N.of_nat (length l)) vs' fs' x) as [[w1 it] o1] eqn:E.
       destruct it as [it|]; [|inversion H; subst; exact Hw].
       destruct o1; try (inversion H; subst; exact Hw). destruct c as [i0 d df dy]. inversion H; subst.
@@ -382,28 +448,62 @@ Section WF.
       pose proof (wf_cfg_get _ _ _ _ Hw0 Eg) as Hl. unfold wf_slot in Hl. rewrite Ef in Hl. apply wf_val_list in Hl.
       unfold wf_items in *. apply Forall_app. split; [apply Forall_firstn'; exact Hl|].
       constructor; [eapply make_item_wf; eauto | apply Forall_skipn'; exact Hl].
+    - (* CSetObj *)
+      destruct (fget F k fs) as [[f|d1 v1 f1|req vs' fs' fs'q]|] eqn:Ef.
+      + destruct (lvalidate f cfg_object); inversion H; subst; exact Hw.
+      + inversion H; subst. apply wf_store; [exact Hw|]. unfold wf_slot. rewrite Ef. cbn [wf_val]. exact Hobj.
+      + inversion H; subst. exact Hw.
+      + destruct dyn; inversion H; subst; exact Hw.
+    - (* CAppendObj *)
+      destruct (fget F k fs) as [[f|d1 v1 f1|req vs' fs' fs'q]|] eqn:Ef; try (inversion H; subst; exact Hw).
+      destruct (dget k (c_data c)) as [[v|c0|l]|] eqn:Eg; try (inversion H; subst; exact Hw).
+      destruct (obj_item F lvalidate lflag vrun (path_join pre k) (N.of_nat (length l)) vs' fs' src); try (inversion H; subst; exact Hw).
+      destruct c as [i d df dy]. inversion H; subst.
+      apply wf_cfg_data. pose proof Hw as Hw0. apply wf_cfg_data in Hw. apply wf_data_dset; [exact Hw|]. unfold wf_slot. rewrite Ef.
+      apply wf_val_list. apply Forall_app. split.
+      * pose proof (wf_cfg_get _ _ _ _ Hw0 Eg) as Hl. unfold wf_slot in Hl. rewrite Ef in Hl. apply wf_val_list in Hl. exact Hl.
+      * constructor; [exact Hobj | constructor].
+    - (* CSetIdxObj *)
+      destruct (fget F k fs) as [[f|d1 v1 f1|req vs' fs' fs'q]|] eqn:Ef; try (inversion H; subst; exact Hw).
+      destruct (dget k (c_data c)) as [[v|c0|l]|] eqn:Eg; try (inversion H; subst; exact Hw).
+      destruct (obj_item F lvalidate lflag vrun (path_join pre k) (N.of_nat (length l)) vs' fs' src); try (inversion H; subst; exact Hw).
+      destruct (i <? length l)%nat; [|inversion H; subst; exact Hw]. destruct c as [i0 d df dy]. inversion H; subst.
+      apply wf_cfg_data. pose proof Hw as Hw0. apply wf_cfg_data in Hw. apply wf_data_dset; [exact Hw|]. unfold wf_slot. rewrite Ef.
+      apply wf_val_list. apply wf_items_set_nth; [|exact Hobj].
+      pose proof (wf_cfg_get _ _ _ _ Hw0 Eg) as Hl. unfold wf_slot in Hl. rewrite Ef in Hl. apply wf_val_list in Hl. exact Hl.
+    - (* CInsertObj *)
+      destruct (fget F k fs) as [[f|d1 v1 f1|req vs' fs' fs'q]|] eqn:Ef; try (inversion H; subst; exact Hw).
+      destruct (dget k (c_data c)) as [[v|c0|l]|] eqn:Eg; try (inversion H; subst; exact Hw).
+      destruct (obj_item F lvalidate lflag vrun (path_join pre k) (N.of_nat (length l)) vs' fs' src); try (inversion H; subst; exact Hw).
+      destruct c as [i0 d df dy]. inversion H; subst.
+      apply wf_cfg_data. pose proof Hw as Hw0. apply wf_cfg_data in Hw. apply wf_data_dset; [exact Hw|]. unfold wf_slot. rewrite Ef.
+      apply wf_val_list.
+      pose proof (wf_cfg_get _ _ _ _ Hw0 Eg) as Hl. unfold wf_slot in Hl. rewrite Ef in Hl. apply wf_val_list in Hl.
+      unfold wf_items in *. apply Forall_app. split; [apply Forall_firstn'; exact Hl|].
+      constructor; [exact Hobj | apply Forall_skipn'; exact Hl].
   Qed.
 
   (* C01, one step: whatever the operation, wherever it is addressed, accepted or rejected *)
   Theorem step_wf : forall ps o w pre c dyn vs fs w' c' oc1,
-    ok_fields fs -> wf_cfg fs c -> at_path ps w pre c dyn vs fs o = (w', c', oc1) -> wf_cfg fs c'.
+    ok_fields fs -> wf_cfg fs c -> obj_ok fs ps o -> at_path ps w pre c dyn vs fs o = (w', c', oc1) -> wf_cfg fs c'.
   Proof.
-    induction ps as [|[k|k i] ps IH]; intros o w pre c dyn vs fs w' c' oc1 Hok Hw H; cbn [Config.at_path] in H.
+    induction ps as [|[k|k i] ps IH]; intros o w pre c dyn vs fs w' c' oc1 Hok Hw Hobj H; cbn [Config.at_path] in H;
+      unfold obj_ok in Hobj; cbn [fields_at] in Hobj.
     - eapply apply_cop_wf; eauto.
-    - destruct (fget F k fs) as [[f|dyn' vs' fs'|req vs' fs']|] eqn:Ef; try (inversion H; subst; exact Hw).
+    - destruct (fget F k fs) as [[f|dyn' vs' fs'|req vs' fs' fs'q]|] eqn:Ef; try (inversion H; subst; exact Hw).
       destruct (dget k (c_data c)) as [[v|sub|l]|] eqn:Eg; try (inversion H; subst; exact Hw).
       destruct (at_path ps w (path_join pre k) sub dyn' vs' fs' o) as [[w1 sub'] o1] eqn:E.
       assert (Hok' : ok_fields fs') by (apply (ok_node_sub dyn' vs'); eapply ok_fields_get; eauto).
       pose proof (wf_cfg_get _ _ _ _ Hw Eg) as Hs. unfold wf_slot in Hs. rewrite Ef in Hs. cbn [wf_val] in Hs.
-      apply IH in E; auto. destruct c as [i0 d df dy]. inversion H; subst.
+      apply IH in E; [| exact Hok' | exact Hs | exact Hobj]. destruct c as [i0 d df dy]. inversion H; subst.
       apply wf_cfg_data. apply wf_cfg_data in Hw. apply wf_data_dset; [exact Hw|]. unfold wf_slot. rewrite Ef. exact E.
-    - destruct (fget F k fs) as [[f|dyn' vs' fs'|req vs' fs']|] eqn:Ef; try (inversion H; subst; exact Hw).
+    - destruct (fget F k fs) as [[f|dyn' vs' fs'|req vs' fs' fs'q]|] eqn:Ef; try (inversion H; subst; exact Hw).
       destruct (dget k (c_data c)) as [[v|sub|l]|] eqn:Eg; try (inversion H; subst; exact Hw).
       destruct (nth_error l i) as [it|] eqn:En; [|inversion H; subst; exact Hw].
       destruct (at_path ps w (path_index (path_join pre k) (N.of_nat i)) it false vs' fs' o) as [[w1 it'] o1] eqn:E.
-      assert (Hok' : ok_fields fs') by (apply (ok_node_list req vs'); eapply ok_fields_get; eauto).
+      assert (Hok' : ok_fields fs') by (eapply (ok_node_list req vs'); eapply ok_fields_get; eauto).
       pose proof (wf_cfg_get _ _ _ _ Hw Eg) as Hl. unfold wf_slot in Hl. rewrite Ef in Hl. apply wf_val_list in Hl.
-      apply IH in E; auto; [|eapply wf_items_nth; eauto]. destruct c as [i0 d df dy]. inversion H; subst.
+      apply IH in E; [| exact Hok' | eapply wf_items_nth; eauto | exact Hobj]. destruct c as [i0 d df dy]. inversion H; subst.
       apply wf_cfg_data. apply wf_cfg_data in Hw. apply wf_data_dset; [exact Hw|]. unfold wf_slot. rewrite Ef.
       apply wf_val_list. apply wf_items_set_nth; assumption.
   Qed.
@@ -414,13 +514,186 @@ Section WF.
     | [] => c
     | (ps, o) :: r => let '(w1, c1, _) := at_path ps w [] c dyn vs fs o in run r w1 c1 dyn vs fs
     end.
-  Theorem run_wf : forall ops w c dyn vs fs, ok_fields fs -> wf_cfg fs c -> wf_cfg fs (run ops w c dyn vs fs).
+  Definition objs_ok (fs : list (str * node F)) (ops : list (list pstep * cop)) : Prop :=
+    Forall (fun po => obj_ok fs (fst po) (snd po)) ops.
+  Theorem run_wf : forall ops w c dyn vs fs, ok_fields fs -> wf_cfg fs c -> objs_ok fs ops -> wf_cfg fs (run ops w c dyn vs fs).
   Proof.
-    induction ops as [|[ps o] ops IH]; intros w c dyn vs fs Hok Hw; cbn [run]; [exact Hw|].
-    destruct (at_path ps w [] c dyn vs fs o) as [[w1 c1] o1] eqn:E. apply IH; [exact Hok|]. eapply step_wf; eauto.
+    induction ops as [|[ps o] ops IH]; intros w c dyn vs fs Hok Hw Hobj; cbn [run]; [exact Hw|].
+    inversion Hobj; subst. cbn [fst snd] in *.
+    destruct (at_path ps w [] c dyn vs fs o) as [[w1 c1] o1] eqn:E. apply IH; [exact Hok| |assumption]. eapply step_wf; eauto.
   Qed.
-  Theorem reachable_wf : forall ops w dyn vs fs, ok_fields fs -> wf_cfg fs (run ops (fst (build_cfg w fs)) (snd (build_cfg w fs)) dyn vs fs).
-  Proof. intros. apply run_wf; [assumption | apply build_cfg_wf; assumption]. Qed.
+  Theorem reachable_wf : forall ops w dyn vs fs, ok_fields fs -> objs_ok fs ops ->
+    wf_cfg fs (run ops (fst (build_cfg w fs)) (snd (build_cfg w fs)) dyn vs fs).
+  Proof. intros. apply run_wf; [assumption | apply build_cfg_wf; assumption | assumption]. Qed.
+  (* histories without configuration objects need no side condition at all *)
+  Lemma plain_objs_ok : forall fs ops, forallb (fun po => plain_op (snd po)) ops = true -> objs_ok fs ops.
+  Proof.
+    intros fs ops H. unfold objs_ok. apply Forall_forall. intros [ps o] Hin. rewrite forallb_forall in H.
+    apply plain_obj_ok. exact (H _ Hin).
+  Qed.
+
+  (* ---- objects built by the model itself (Config.detached / resolve / at_path_x): the side condition is a static
+     matter -- the object was built from the schema of the slot it is handed to ---- *)
+  Notation run_detached := (run_detached F lvalidate lto_python ldefault lcallable lflag vrun).
+  Notation detached := (detached F lvalidate lto_python ldefault lcallable lflag vrun).
+  Notation resolve := (resolve F lvalidate lto_python ldefault lcallable lflag vrun).
+  Notation at_path_x := (at_path_x F lvalidate lto_python ldefault lcallable lflag vrun).
+
+  Lemma run_detached_wf : forall dops w c sdyn svs sfs, ok_fields sfs -> wf_cfg sfs c -> objs_ok sfs dops ->
+    wf_cfg sfs (snd (run_detached dops w c sdyn svs sfs)).
+  Proof.
+    induction dops as [|[ps o] dops IH]; intros w c sdyn svs sfs Hok Hw Hobj; cbn [Config.run_detached]; [exact Hw|].
+    inversion Hobj; subst. cbn [fst snd] in *.
+    destruct (at_path ps w [] c sdyn svs sfs o) as [[w1 c1] o1] eqn:E. apply IH; [exact Hok| |assumption]. eapply step_wf; eauto.
+  Qed.
+  (* closure: whatever is done to a freshly built configuration, the result is well-formed for its own schema *)
+  Theorem detached_wf : forall w sdyn svs sfs dops, ok_fields sfs -> objs_ok sfs dops ->
+    wf_cfg sfs (snd (detached w sdyn svs sfs dops)).
+  Proof.
+    intros w sdyn svs sfs dops Hok Hobj. unfold Config.detached. destruct (build_cfg w sfs) as [w1 c0] eqn:Eb.
+    apply run_detached_wf; [exact Hok | | exact Hobj]. pose proof (build_cfg_wf sfs w Hok) as Hb. rewrite Eb in Hb. exact Hb.
+  Qed.
+
+  Lemma fields_at_ok : forall ps fs fs1, ok_fields fs -> fields_at ps fs = Some fs1 -> ok_fields fs1.
+  Proof.
+    induction ps as [|[k|k i] ps IH]; intros fs fs1 Hok H; cbn [fields_at] in H.
+    - inversion H; subst. exact Hok.
+    - destruct (fget F k fs) as [[f|d' vs' fs'|r' vs' fs' fs'q]|] eqn:Ef; try discriminate.
+      eapply IH; [|exact H]. apply (ok_node_sub d' vs'). eapply ok_fields_get; eauto.
+    - destruct (fget F k fs) as [[f|d' vs' fs'|r' vs' fs' fs'q]|] eqn:Ef; try discriminate.
+      eapply IH; [|exact H]. eapply (ok_node_list r' vs'). eapply ok_fields_get; eauto.
+  Qed.
+
+  (* the fields an object must fit, by route: a sub-configuration slot for an assignment, the item schema for the list routes *)
+  Definition slot_fields (fs1 : list (str * node F)) (r : objroute) (k : str) : option (list (str * node F)) :=
+    match r, fget F k fs1 with
+    | RSet, Some (NSub _ _ fs') => Some fs'
+    | RAppend, Some (NCfgList _ _ fs' _) | RSetIdx _, Some (NCfgList _ _ fs' _) | RInsert _, Some (NCfgList _ _ fs' _) => Some fs'
+    | _, _ => None
+    end.
+  (* static side condition on an extended operation: a side-built object that reaches a sub-configuration slot or a list
+     of configurations was built from that slot's own fields (objects built from another schema -- which the code accepts
+     unchecked -- are outside what C01 can promise), and the operations applied to it on the side hand over no
+     further objects of unknown origin *)
+  Definition slot_matches (fs : list (str * node F)) (ps : list pstep) (r : objroute) (k : str) (sfs : list (str * node F)) : Prop :=
+    match fields_at ps fs with
+    | Some fs1 => match slot_fields fs1 r k with Some fs' => sfs = fs' | None => True end
+    | None => True
+    end.
+  Definition xobj_ok (fs : list (str * node F)) (ps : list pstep) (x : xop F) : Prop :=
+    match x with
+    | XOp o => obj_ok fs ps o
+    | XObj r k sdyn svs sfs dops => objs_ok sfs dops /\ slot_matches fs ps r k sfs
+    | XAgain _ _ _ => True         (* stateless reading: nothing is offered *)
+    end.
+
+  (* an object well-formed for the schema it was built from meets obj_ok wherever that schema is the slot's *)
+  Lemma offered_obj_ok : forall fs ps r k sfs src, ok_fields fs -> slot_matches fs ps r k sfs -> wf_cfg sfs src ->
+    obj_ok fs ps (obj_cop r k src).
+  Proof.
+    intros fs ps r k sfs src Hok Hs Hwf. unfold obj_ok, slot_matches in *. destruct (fields_at ps fs) as [fs1|] eqn:Ea; [|exact I].
+    unfold slot_fields in Hs.
+    destruct r; cbn [obj_cop obj_ok_at]; destruct (fget F k fs1) as [[f|d' vs' f'|r' vs' f']|]; try exact I; subst sfs; exact Hwf.
+  Qed.
+  Theorem resolve_obj_ok : forall fs ps x w o, ok_fields fs -> xobj_ok fs ps x -> snd (resolve w x) = Some o -> obj_ok fs ps o.
+  Proof.
+    intros fs ps x w o Hok Hx Hr. destruct x as [o0|r k sdyn svs sfs dops|r k dops]; cbn [Config.resolve xobj_ok] in *.
+    - inversion Hr; subst. exact Hx.
+    - destruct Hx as [Hd Hs]. destruct (detached w sdyn svs sfs dops) as [w1 src] eqn:Ed. cbn [snd] in Hr. inversion Hr; subst. clear Hr.
+      unfold slot_matches in Hs.
+      unfold obj_ok. destruct (fields_at ps fs) as [fs1|] eqn:Ea; [|exact I].
+      pose proof (fields_at_ok ps fs fs1 Hok Ea) as Hok1.
+      assert (Hwf : forall fs', slot_fields fs1 r k = Some fs' -> wf_cfg fs' src).
+      { intros fs' Hsl. rewrite Hsl in Hs. subst sfs.
+        assert (Hok' : ok_fields fs').
+        { unfold slot_fields in Hsl. destruct r; destruct (fget F k fs1) as [[f|d' vs' f'|r' vs' f']|] eqn:Ef; try discriminate;
+            inversion Hsl; subst;
+            first [ apply (ok_node_sub d' vs'); eapply ok_fields_get; eauto | eapply (ok_node_list r' vs'); eapply ok_fields_get; eauto ]. }
+        pose proof (detached_wf w sdyn svs fs' dops Hok' Hd) as Hdw. rewrite Ed in Hdw. exact Hdw. }
+      unfold slot_fields in Hwf.
+      destruct r; cbn [obj_cop obj_ok_at]; destruct (fget F k fs1) as [[f|d' vs' f'|r' vs' f']|]; try exact I; apply Hwf; reflexivity.
+    - discriminate.
+  Qed.
+
+  Theorem step_x_wf : forall ps x w pre c dyn vs fs w' c' oc1,
+    ok_fields fs -> wf_cfg fs c -> xobj_ok fs ps x -> at_path_x ps w pre c dyn vs fs x = (w', c', oc1) -> wf_cfg fs c'.
+  Proof.
+    intros ps x w pre c dyn vs fs w' c' oc1 Hok Hw Hx H. unfold Config.at_path_x in H.
+    pose proof (resolve_obj_ok fs ps x w) as Ho. destruct (resolve w x) as [w1 [o|]]; cbn [snd] in Ho.
+    - eapply step_wf; [exact Hok | exact Hw | apply Ho; auto | exact H].
+    - inversion H; subst. exact Hw.
+  Qed.
+
+  Fixpoint run_x (ops : list (list pstep * xop F)) (w : world) (c : cfg) (dyn : bool) (vs : list N) (fs : list (str * node F)) : cfg :=
+    match ops with
+    | [] => c
+    | (ps, x) :: r => let '(w1, c1, _) := at_path_x ps w [] c dyn vs fs x in run_x r w1 c1 dyn vs fs
+    end.
+  Definition xobjs_ok (fs : list (str * node F)) (ops : list (list pstep * xop F)) : Prop :=
+    Forall (fun px => xobj_ok fs (fst px) (snd px)) ops.
+  Theorem run_x_wf : forall ops w c dyn vs fs, ok_fields fs -> wf_cfg fs c -> xobjs_ok fs ops -> wf_cfg fs (run_x ops w c dyn vs fs).
+  Proof.
+    induction ops as [|[ps x] ops IH]; intros w c dyn vs fs Hok Hw Hobj; cbn [run_x]; [exact Hw|].
+    inversion Hobj; subst. cbn [fst snd] in *.
+    destruct (at_path_x ps w [] c dyn vs fs x) as [[w1 c1] o1] eqn:E. apply IH; [exact Hok| |assumption]. eapply step_x_wf; eauto.
+  Qed.
+  (* C01 over histories that build configuration objects on the side and hand them over: every reachable state is well-formed *)
+  Theorem reachable_x_wf : forall ops w dyn vs fs, ok_fields fs -> xobjs_ok fs ops ->
+    wf_cfg fs (run_x ops (fst (build_cfg w fs)) (snd (build_cfg w fs)) dyn vs fs).
+  Proof. intros. apply run_x_wf; [assumption | apply build_cfg_wf; assumption | assumption]. Qed.
+
+  (* ---- histories in which the caller keeps an object that was refused, goes on working on it and offers it again
+     (Config.at_path_xs).  The static condition follows the schema of the object the caller may still hold. ---- *)
+  Notation at_path_xs := (at_path_xs F lvalidate lto_python ldefault lcallable lflag vrun).
+  Fixpoint run_xs (ops : list (list pstep * xop F)) (w : world) (last : kept F) (c : cfg) (dyn : bool) (vs : list N)
+           (fs : list (str * node F)) : cfg :=
+    match ops with
+    | [] => c
+    | (ps, x) :: r => let '(w1, last1, c1, _) := at_path_xs ps w last [] c dyn vs fs x in run_xs r w1 last1 c1 dyn vs fs
+    end.
+  Fixpoint xs_ok (fs : list (str * node F)) (ops : list (list pstep * xop F)) (held : option (list (str * node F))) : Prop :=
+    match ops with
+    | [] => True
+    | (ps, XOp o) :: r => obj_ok fs ps o /\ xs_ok fs r held
+    | (ps, XObj rt k sdyn svs sfs dops) :: r =>
+        (ok_fields sfs /\ objs_ok sfs dops /\ slot_matches fs ps rt k sfs) /\ xs_ok fs r (Some sfs)
+    | (ps, XAgain rt k dops) :: r =>
+        match held with Some sfs => objs_ok sfs dops /\ slot_matches fs ps rt k sfs | None => True end /\ xs_ok fs r held
+    end.
+  Definition kept_ok (held : option (list (str * node F))) (last : kept F) : Prop :=
+    match last with
+    | Some (src, (_, _, sfs)) => held = Some sfs /\ ok_fields sfs /\ wf_cfg sfs src
+    | None => True
+    end.
+  Lemma kept_ok_refused : forall held o src sdyn svs sfs, held = Some sfs -> ok_fields sfs -> wf_cfg sfs src ->
+    kept_ok held (keep_if_refused F o src (sdyn, svs, sfs)).
+  Proof. intros. destruct o; cbn [keep_if_refused kept_ok]; auto. Qed.
+
+  Theorem run_xs_wf : forall ops w last c dyn vs fs held,
+    ok_fields fs -> wf_cfg fs c -> kept_ok held last -> xs_ok fs ops held -> wf_cfg fs (run_xs ops w last c dyn vs fs).
+  Proof.
+    induction ops as [|[ps x] ops IH]; intros w last c dyn vs fs held Hok Hw Hk Hx; cbn [run_xs]; [exact Hw|].
+    destruct x as [o|rt k sdyn svs sfs dops|rt k dops]; cbn [xs_ok] in Hx; cbn [Config.at_path_xs].
+    - destruct Hx as [Ho Hx]. destruct (at_path ps w [] c dyn vs fs o) as [[w1 c1] o1] eqn:E.
+      eapply IH; [exact Hok | eapply step_wf; eauto | exact Hk | exact Hx].
+    - destruct Hx as [[Hsk [Hd Hs]] Hx]. destruct (detached w sdyn svs sfs dops) as [w1 src] eqn:Ed.
+      pose proof (detached_wf w sdyn svs sfs dops Hsk Hd) as Hsrc. rewrite Ed in Hsrc. cbn [snd] in Hsrc.
+      destruct (at_path ps w1 [] c dyn vs fs (obj_cop rt k src)) as [[w2 c1] o1] eqn:E.
+      eapply IH; [exact Hok | | apply kept_ok_refused; [reflexivity | exact Hsk | exact Hsrc] | exact Hx].
+      eapply step_wf; [exact Hok | exact Hw | | exact E]. eapply offered_obj_ok; eauto.
+    - destruct Hx as [Ha Hx]. destruct last as [[src0 [[sdyn svs] sfs]]|].
+      + cbn [kept_ok] in Hk. destruct Hk as [Hh [Hsk Hsrc0]]. subst held. destruct Ha as [Hd Hs].
+        destruct (run_detached dops w src0 sdyn svs sfs) as [w1 src] eqn:Ed.
+        pose proof (run_detached_wf dops w src0 sdyn svs sfs Hsk Hsrc0 Hd) as Hsrc. rewrite Ed in Hsrc. cbn [snd] in Hsrc.
+        destruct (at_path ps w1 [] c dyn vs fs (obj_cop rt k src)) as [[w2 c1] o1] eqn:E.
+        eapply IH; [exact Hok | | apply kept_ok_refused; [reflexivity | exact Hsk | exact Hsrc] | exact Hx].
+        eapply step_wf; [exact Hok | exact Hw | | exact E]. eapply offered_obj_ok; eauto.
+      + eapply IH; [exact Hok | exact Hw | exact I | exact Hx].
+  Qed.
+  (* C01 over histories with side-built, kept and re-offered configuration objects *)
+  Theorem reachable_xs_wf : forall ops w dyn vs fs, ok_fields fs -> xs_ok fs ops None ->
+    wf_cfg fs (run_xs ops (fst (build_cfg w fs)) None (snd (build_cfg w fs)) dyn vs fs).
+  Proof. intros. eapply run_xs_wf; [assumption | apply build_cfg_wf; assumption | exact I | eassumption]. Qed.
 
   (* reading a leaf right after an accepted assignment yields the field's normalised form of the assigned value *)
   Theorem set_get : forall x w pre c fs dyn k rl w' c' f,
